@@ -269,7 +269,7 @@ def putNetAddr (pver : Nat) (ts : Bool) (na : NetAddr) : Bytes :=
 
 /-- readNetAddress into a fresh NetAddress -/
 def getNetAddr (pver : Nat) (ts : Bool) : Rd NetAddr := do
-  let t ← if hasTs pver ts then get32le else pure goZeroTime
+  let t ← (if hasTs pver ts then get32le else pure goZeroTime)
   let sv ← get64le
   let ip ← getBytes 16
   let port ← get16be
@@ -368,18 +368,18 @@ def decVersion (gmax pver : Nat) : Rd Msg := do
   let ts ← get64le
   let you ← getNetAddr pver false
   let r ← Rd.remaining
-  let me ← if r > 0 then getNetAddr pver false else pure NetAddr.zero
+  let me ← (if r > 0 then getNetAddr pver false else pure NetAddr.zero)
   let r ← Rd.remaining
-  let nonce ← if r > 0 then get64le else pure 0
+  let nonce ← (if r > 0 then get64le else pure 0)
   let r ← Rd.remaining
-  let ua ← if r > 0 then (do
+  let ua ← (if r > 0 then (do
       let s ← getVarBytes gmax
       if s.length > maxUserAgentLen then Rd.fail .userAgent else pure s)
-    else pure []
+    else pure [])
   let r ← Rd.remaining
-  let lb ← if r > 0 then get32le else pure 0
+  let lb ← (if r > 0 then get32le else pure 0)
   let r ← Rd.remaining
-  let relay ← if r > 0 then (do let x ← get8; pure (decide (x = 0))) else pure false
+  let relay ← (if r > 0 then (do let x ← get8; pure (decide (x = 0))) else pure false)
   pure (.version pv sv ts you me nonce ua lb relay)
 
 def decAddr (pver : Nat) : Rd Msg := do
@@ -399,7 +399,7 @@ def decReject (gmax pver : Nat) : Rd Msg :=
     let cmd ← getVarBytes gmax
     let code ← get8
     let reason ← getVarBytes gmax
-    let hash ← if cmd = cmdBlock ∨ cmd = cmdTx then getHash else pure zeroHash
+    let hash ← (if cmd = cmdBlock ∨ cmd = cmdTx then getHash else pure zeroHash)
     pure (.reject cmd code reason hash)
 
 /-- `Bsvdecode(r, pver, _)` on a fresh value of the given concrete type -/
@@ -519,15 +519,22 @@ def writeMessage (H : Bytes → Bytes) (gmax pver net : Nat) (m : Msg) : Except 
 def discardAllocs (n : Nat) : List Nat :=
   (if n > 0 then [10240] else []) ++ (if n % 10240 > 0 then [n % 10240] else [])
 
-/-- ReadMessageWithEncodingN on a byte stream: the message and the unread rest, or the error;
-    first component: allocation meter (payload buffer, discard buffers, decoder allocations) -/
-def readMessageRd (H : Bytes → Bytes) (gmax pver net : Nat) : Rd Msg := do
-  let r ← Rd.remaining
-  if r < messageHeaderSize then Rd.fail .eof else do
-  let magic ← get32le
-  let cmd ← getBytes commandSize
-  let len ← get32le
-  let ck ← getBytes 4
+/-- checksum test, then Bsvdecode on the payload's own buffer (the stream keeps `rest`) -/
+def finishPayload (H : Bytes → Bytes) (gmax pver : Nat) (t : MsgType) (ck payload : Bytes) : Rd Msg := fun rest =>
+  if checksum H payload ≠ ck then ([], .error .checksum)
+  else match decodeRd gmax pver t payload with
+    | (al, .error e) => (al, .error e)
+    | (al, .ok (m, _)) => (al, .ok (m, rest))
+
+/-- ReadMessageWithEncodingN after the per-type length check: allocate and read the payload,
+    test the checksum, decode -/
+def readPayload (H : Bytes → Bytes) (gmax pver : Nat) (t : MsgType) (len : Nat) (ck : Bytes) : Rd Msg := do
+  Rd.alloc len
+  let payload ← getBytes len
+  finishPayload H gmax pver t ck payload
+
+/-- ReadMessageWithEncodingN after the 24-byte header has been read: the checks in source order -/
+def readBody (H : Bytes → Bytes) (gmax pver net magic : Nat) (cmd : Bytes) (len : Nat) (ck : Bytes) : Rd Msg :=
   if len > gmax then Rd.fail .oversizeGlobal
   else if magic ≠ net then do Rd.allocs (discardAllocs len); Rd.fail .magic
   else match lookupCmd (trimZeros cmd) with
@@ -537,14 +544,18 @@ def readMessageRd (H : Bytes → Bytes) (gmax pver net : Nat) : Rd Msg := do
       | none => Rd.fail .unmodelled
       | some mpl =>
         if len > mpl then do Rd.allocs (discardAllocs len); Rd.fail .oversizeType
-        else do
-          Rd.alloc len
-          let payload ← getBytes len
-          if checksum H payload ≠ ck then Rd.fail .checksum
-          else fun rest =>
-            match decodeRd gmax pver t payload with
-            | (al, .error e) => (al, .error e)
-            | (al, .ok (m, _)) => (al, .ok (m, rest))
+        else readPayload H gmax pver t len ck
+
+/-- ReadMessageWithEncodingN on a byte stream: the message and the unread rest, or the error;
+    first component: allocation meter (payload buffer, discard buffers, decoder allocations) -/
+def readMessageRd (H : Bytes → Bytes) (gmax pver net : Nat) : Rd Msg := do
+  let r ← Rd.remaining
+  if r < messageHeaderSize then Rd.fail .eof else do
+  let magic ← get32le
+  let cmd ← getBytes commandSize
+  let len ← get32le
+  let ck ← getBytes 4
+  readBody H gmax pver net magic cmd len ck
 
 def readMessage (H : Bytes → Bytes) (gmax pver net : Nat) (bs : Bytes) : Except Err (Msg × Bytes) :=
   (readMessageRd H gmax pver net bs).2
